@@ -148,6 +148,10 @@ func errDiscSite(p *Program, obs *obSet, fn *ssa.Function, ci ssa.CallInstructio
 		return
 	}
 	if !use.nilTested {
+		if use.nilTestedMerged {
+			obs.undecided(key, pos, "the error is merged with other values (phi or re-assigned local) before it is compared with nil; its failure paths cannot be followed")
+			return
+		}
 		if use.sentinel {
 			obs.undecided(key, pos, "the error is only compared with sentinel values, never with nil")
 			return
@@ -231,6 +235,18 @@ func errDiscSite(p *Program, obs *obSet, fn *ssa.Function, ci ssa.CallInstructio
 			handled["positive match against a sentinel error"]++
 			return v.St, true
 		}
+		// a later test of a variable into which this error was merged: the engine cannot tell
+		// which way it goes on this path
+		if b, ok := c.(*ssa.BinOp); ok && (b.Op == token.EQL || b.Op == token.NEQ) && (isNilConst(b.X) || isNilConst(b.Y)) {
+			x := b.X
+			if isNilConst(x) {
+				x = b.Y
+			}
+			if phiMerges(x, ev, 4) {
+				undecided = "the error is merged with other values (phi) and tested again later; its failure paths cannot be followed"
+				return v.St, true
+			}
+		}
 		return v.St, false
 	}
 	s.RunAfter(in, "")
@@ -264,8 +280,10 @@ type errUses struct {
 	returned  bool
 	wrapped   bool
 	nilTested bool
-	sentinel  bool
-	escapes   string
+	// nilTestedMerged: compared with nil only after a merge the path engine cannot see through
+	nilTestedMerged bool
+	sentinel        bool
+	escapes         string
 }
 
 // classifyErrUses follows the error value through phis, interface conversions, variadic
@@ -273,6 +291,7 @@ type errUses struct {
 func classifyErrUses(ev ssa.Value) errUses {
 	var u errUses
 	seen := map[ssa.Value]bool{}
+	merged := map[ssa.Value]bool{}
 	var walk func(v ssa.Value, depth int, wrapped bool)
 	walk = func(v ssa.Value, depth int, wrapped bool) {
 		if seen[v] || depth > 6 || v.Referrers() == nil {
@@ -285,6 +304,7 @@ func classifyErrUses(ev ssa.Value) errUses {
 				u.returned = true
 				u.wrapped = u.wrapped || wrapped
 			case *ssa.Phi:
+				merged[x] = true
 				walk(x, depth+1, wrapped)
 			case *ssa.MakeInterface:
 				walk(x, depth+1, wrapped)
@@ -293,7 +313,11 @@ func classifyErrUses(ev ssa.Value) errUses {
 			case *ssa.BinOp:
 				if x.Op == token.EQL || x.Op == token.NEQ {
 					if isNilConst(x.X) || isNilConst(x.Y) {
-						u.nilTested = true
+						if merged[v] {
+							u.nilTestedMerged = true
+						} else {
+							u.nilTested = true
+						}
 					} else {
 						u.sentinel = true
 					}
@@ -307,6 +331,9 @@ func classifyErrUses(ev ssa.Value) errUses {
 					// result slot or local: follow the loads
 					for _, rr := range *a.Referrers() {
 						if ld, ok := rr.(*ssa.UnOp); ok && ld.Op == token.MUL {
+							if singleStore(a) == nil && lastStoreBefore(ld, a) != v {
+								merged[ld] = true
+							}
 							walk(ld, depth+1, wrapped)
 						}
 					}
@@ -344,6 +371,20 @@ func classifyErrUses(ev ssa.Value) errUses {
 	}
 	walk(ev, 0, false)
 	return u
+}
+
+// phiMerges reports whether v is a phi one of whose inputs is ev.
+func phiMerges(v, ev ssa.Value, depth int) bool {
+	ph, ok := v.(*ssa.Phi)
+	if !ok || depth == 0 {
+		return false
+	}
+	for _, e := range ph.Edges {
+		if e == ev || phiMerges(e, ev, depth-1) {
+			return true
+		}
+	}
+	return false
 }
 
 // derivesFromErr reports whether rv is ev, possibly wrapped by an error constructor.
